@@ -162,6 +162,37 @@ func c11Scenarios(tier string) []*h.Scenario {
 	if tier == "thorough" {
 		bound = 3
 	}
+	if tier == "thorough" {
+		// generated: every unordered pair (a request with itself included) of twelve kinds of single requests on the
+		// pre-populated repository, both stores, up to two preemptions
+		prefix2 := func(w *h.World) {
+			prefix(w)
+			mustStatus(w.PushBlob(repo, f.Items["l2"].Data, f.Items["l2"].Dig), 201)
+		}
+		alpha := []h.Step{putMan(repo, "I1", "t"), putMan(repo, "I2", "t"), putMan(repo, "I1", "t2"), putMan(repo, "A1", f.Items["A1"].Dig), putMan(repo, "A2", f.Items["A2"].Dig),
+			del("base"), del(f.Items["I1"].Dig), del(f.Items["A0"].Dig), pushBlob(repo, "l2"), getTags, getTag("base"), getRef}
+		for _, store := range []string{"mem", "dir"} {
+			for i := range alpha {
+				for j := i; j < len(alpha); j++ {
+					a, b := alpha[i], alpha[j]
+					if strings.HasPrefix(a.Name, "GET") && strings.HasPrefix(b.Name, "GET") {
+						continue // two reads do not conflict
+					}
+					nm := strings.NewReplacer(" ", "-", ":", "-", "@", "", "(", "", ")", "").Replace(a.Name + "-vs-" + b.Name)
+					out = append(out, &h.Scenario{
+						Name:         "c11-" + store + "-pair-" + nm,
+						Conf:         &h.Conf{Name: store, Store: store},
+						Prefix:       prefix2,
+						Threads:      [][]h.Step{{a}, {b}},
+						Final:        final(repo),
+						Linearizable: true,
+						Bound:        2,
+						MaxSeconds:   150,
+					})
+				}
+			}
+		}
+	}
 	for _, store := range []string{"mem", "dir"} {
 		for _, d := range defs {
 			store, d := store, d
@@ -208,7 +239,7 @@ func init() {
 	h.RegisterSched(&h.SchedCheck{
 		ID:    "C11",
 		Level: "model_checking",
-		Rule: "stateless depth-first search over all interleavings, up to the preemption bound, of 8 (quick) / 10 (thorough) scenarios per store on a pre-populated repository (two referrers to one subject, two pushes of one tag, referrer push vs referrer delete, tag push vs tag delete vs a reader, digest delete vs tag push, referrer push vs two reads, blob upload vs the manifest needing it, pushes to two repositories with a pending collection tick, three referrers, tag move vs tick); " +
+		Rule: "stateless depth-first search over all interleavings, up to the preemption bound, of 8 (quick) / 10 (thorough) scenarios per store on a pre-populated repository (two referrers to one subject, two pushes of one tag, referrer push vs referrer delete, tag push vs tag delete vs a reader, digest delete vs tag push, referrer push vs two reads, blob upload vs the manifest needing it, pushes to two repositories with a pending collection tick, two first accesses after a restart, two pushes racing with the eviction of the idle repository, three referrers, tag move vs tick) and, in the thorough tier, of every unordered pair of twelve kinds of single requests (three tag pushes, two referrer pushes, tag / digest / referrer delete, blob upload, three reads; 72 pairs per store, two preemptions, 150 s each); " +
 			"oracle: linearizability by brute force - every interleaving of the scenario's requests is executed sequentially on a fresh instance of the same implementation, and the explored execution's (responses, complete read transcript at quiescence) must equal the outcome of one of them that respects the observed real-time order; plus the literal clause that all acknowledged concurrent referrers are listed; non-trivial = distinct outcomes",
 		Assume:    []string{"scheduling points as in C12; the clock advances by one nanosecond per reading in the concurrent phase", "a collection tick is one operation of the scenario"},
 		Scenarios: c11Scenarios,
